@@ -28,6 +28,16 @@ func (c *FnCtx) lockState(st *State, m string) string {
 	return "(select " + c.heapGet(st, c.lockComp()) + " " + m + ")"
 }
 
+// ghost$lockgen[m]: how many times this goroutine has acquired m so far (two events with the same generation while m
+// is held happened inside one critical section)
+func (c *FnCtx) lockGenComp() string { return c.comp("ghost$lockgen", "(Array Int Int)") }
+
+func (c *FnCtx) bumpLockGen(st *State, m string) {
+	h := c.lockGenComp()
+	H := c.heapGet(st, h)
+	c.heapSet(st, h, "(store "+H+" "+m+" (+ (select "+H+" "+m+") 1))")
+}
+
 func (c *FnCtx) setLock(st *State, m, v string) {
 	h := c.lockComp()
 	c.heapSet(st, h, "(store "+c.heapGet(st, h)+" "+m+" "+v+")")
@@ -157,7 +167,7 @@ func (c *FnCtx) onAcquire(st *State, mu string, pos token.Pos) {
 	if c.mode != "INT" {
 		return
 	}
-	m := faddrRe.FindStringSubmatch(mu)
+	m := faddrRe.FindStringSubmatch(c.sc.Expand(mu))
 	if m == nil {
 		return
 	}
@@ -214,7 +224,7 @@ func (c *FnCtx) onRelease(st *State, mu string, pos token.Pos) {
 	if c.mode != "INT" {
 		return
 	}
-	m := faddrRe.FindStringSubmatch(mu)
+	m := faddrRe.FindStringSubmatch(c.sc.Expand(mu))
 	if m == nil {
 		return
 	}
@@ -251,12 +261,14 @@ func init() {
 				o.Desc = "Lock() while this goroutine already holds the mutex (self-deadlock)"
 				c.assume(st, "(= "+cur+" 0)")
 				c.setLock(st, m, "(- 1)")
+				c.bumpLockGen(st, m)
 				c.onAcquire(st, m, pos)
 			case "RLock":
 				o := c.obligation(st, "lock", "RLock", "(>= "+cur+" 0)", pos)
 				o.Desc = "RLock() while this goroutine holds the mutex for writing (self-deadlock)"
 				c.assume(st, "(>= "+cur+" 0)")
 				c.setLock(st, m, "(+ "+cur+" 1)")
+				c.bumpLockGen(st, m)
 				c.onAcquire(st, m, pos)
 			case "Unlock":
 				o := c.obligation(st, "lock", "Unlock", "(= "+cur+" (- 1))", pos)
@@ -280,7 +292,7 @@ func init() {
 				continue
 			}
 			preludeTable[t+k] = lockOp(k)
-			preludeModTable[t+k] = []string{"ghost$lock"}
+			preludeModTable[t+k] = []string{"ghost$lock", "ghost$lockgen"}
 		}
 	}
 }
